@@ -437,9 +437,28 @@ func ruleNodeFlag(r *Run) {
 			"every path through SetTypeIsImplementsNode stores IsImplementsNode (creating the entry if the type has none yet)",
 			"SetTypeIsImplementsNode can return without recording the flag (for a type that has no entry yet): a Node type whose only field is `id` is never marked stitchable, and the planner cannot locate it")
 	}
-	isContainsNode := func(v ssa.Value) bool {
+	var isContainsNode func(v ssa.Value) bool
+	isContainsNode = func(v ssa.Value) bool {
 		c, ok := v.(*ssa.Call)
-		if !ok || !strings.HasPrefix(calleeName(&c.Call), "github.com/samber/lo.Contains") || len(c.Call.Args) != 2 {
+		if !ok {
+			return false
+		}
+		// a predicate of the module that tests the same thing on its parameter
+		if sc := c.Call.StaticCallee(); sc != nil && inModule(sc) && sc.Blocks != nil && !strings.Contains(calleeName(&c.Call), "samber/lo.") {
+			readsInterfaces, namesNode := false, false
+			for _, ins := range allInstrs(sc) {
+				if fa, ok := ins.(*ssa.FieldAddr); ok && fieldOf(fa) != nil && fieldOf(fa).Name() == "Interfaces" {
+					readsInterfaces = true
+				}
+				for _, op := range ins.Operands(nil) {
+					if k, ok := (*op).(*ssa.Const); ok && k.Value != nil && k.Value.Kind() == constant.String && constant.StringVal(k.Value) == "Node" {
+						namesNode = true
+					}
+				}
+			}
+			return readsInterfaces && namesNode
+		}
+		if !strings.HasPrefix(calleeName(&c.Call), "github.com/samber/lo.Contains") || len(c.Call.Args) != 2 {
 			return false
 		}
 		k, ok := c.Call.Args[1].(*ssa.Const)
@@ -970,6 +989,14 @@ func ruleNodeFieldSignature(r *Run) {
 					if iff, ok := ref.(*ssa.If); ok {
 						t.side = iff.Block().Succs[0]
 					}
+					// `case !pred(…): return false` — the test holds on the other side
+					if not, ok := ref.(*ssa.UnOp); ok && not.Op == token.NOT {
+						for _, r2 := range *not.Referrers() {
+							if iff, ok := r2.(*ssa.If); ok {
+								t.side = iff.Block().Succs[1]
+							}
+						}
+					}
 				}
 				tests = append(tests, t)
 			}
@@ -1082,66 +1109,237 @@ func ruleNodeLookupScope(r *Run) {
 				"a field is set aside as the relay node lookup whatever type it belongs to: a field `node(id: ID!): Node` declared by a service on an ordinary object type stays in the gateway's schema but gets no route (or is dropped from the merge), so it is sent to a service that does not declare it")
 		}
 	}
-	r.AtLeast(rule, "uses of the node-lookup predicate", n, 3)
+	r.AtLeast(rule, "uses of the node-lookup predicate", n, 1)
 }
 
-// routingExemptions: the conditions under which TypeURLMap.SetFromSchema leaves a type or a
-// field without a route, each with the reason why the gateway can still answer it.
+// routingExemptions: the conditions under which the merge leaves a type or a field without a
+// route, each with the reason why that is in order.
 var routingExemptions = map[string]string{
 	"common.IsBuiltinName":     "introspection names (`__typename`, `__schema`, `__type`, `__*` types) are answered by the gateway itself",
 	"common.IsQueryObjectName": "scope of the node-lookup exemption (R13d.scope)",
-	"merger.isNodeField":       "the relay lookup `node` of Query is answered by the gateway itself (R13d.sig, R13d.scope)",
-	"lo.Contains":              "tests whether the type implements Node: marks the type, exempts nothing",
+	"common.IsRootObjectName":  "scope of the id exemption: a root field called id is an ordinary field (repair 99e48c4)",
+	"merger.isNodeField":       "the relay lookup `node` of Query is planned by the gateway itself from the routes of the types named in its fragments (R13d.sig, R13d.scope); selections of `node` outside a fragment are dropped — recorded defect F46",
+	`"id"`:                     "the id of a non-root type is answered by every service that knows the type: it is fetched with whichever step reaches the object",
 }
 
 // ruleRoutingExemptions (R13d.exempt): every field of every object type gets a route unless one
-// of the confirmed exemptions applies. A further condition in the routing loop is a further way
-// for a field to stay in the gateway's schema without a route.
+// of the confirmed exemptions applies. The rule finds the place where a route is written (the
+// map update on TypeProps.Fields) and walks back over the call chain from SetFromSchema: every
+// branch condition that decides whether that place is reached is classified — a confirmed
+// exemption, a structural test (nil, kind of definition, loop bound), or something new. A new
+// condition is a further way for a field to stay in the gateway's schema without a route.
 func ruleRoutingExemptions(r *Run) {
 	const rule = "R13d.exempt"
-	fn := r.Anchor(rule, "merger.(TypeURLMap).SetFromSchema")
-	if fn == nil {
+	root := r.Anchor(rule, "merger.(TypeURLMap).SetFromSchema")
+	if root == nil {
 		return
 	}
-	n := 0
-	for _, ins := range allInstrs(fn) {
-		iff, ok := ins.(*ssa.If)
-		if !ok {
+	region := r.P.CG.Reachable([]*ssa.Function{root}, nil)
+	// functions of the merger package on a call path from SetFromSchema to the route write
+	writes := map[*ssa.Function][]ssa.Instruction{}
+	for fn := range region {
+		if topFn(fn).Pkg != topFn(root).Pkg {
 			continue
 		}
-		cond := iff.Cond
-		if u, ok := cond.(*ssa.UnOp); ok && u.Op == token.NOT {
-			cond = u.X
-		}
-		switch c := cond.(type) {
-		case *ssa.Call:
-			n++
-			name := calleeName(&c.Call)
-			short := name
-			for k := range routingExemptions {
-				if strings.HasSuffix(strings.SplitN(name, "[", 2)[0], k) {
-					short = k
-				}
-			}
-			reason, known := routingExemptions[short]
-			r.Check(known, rule, fnName(fn), "condition "+calleeDesc(&c.Call), r.P.pos(c.Pos()),
-				"confirmed exemption: "+reason,
-				"the routing loop tests a condition that is not one of the confirmed exemptions ("+name+"): a field or type for which it holds gets no route although it may stay in the gateway's schema — a request for it is sent to a service that does not declare it")
-		case *ssa.BinOp:
-			// comparisons with a string constant: a name singled out inline
-			for _, v := range []ssa.Value{c.X, c.Y} {
-				if _, plain := k0Type(v).(*types.Basic); !plain {
-					continue // a typed constant such as ast.Object: the kind of definition, not a name
-				}
-				if k, ok := v.(*ssa.Const); ok && k.Value != nil && k.Value.Kind() == constant.String {
-					n++
-					r.Bad(rule, fnName(fn), "condition on the name "+k.Value.ExactString(), r.P.pos(c.Pos()),
-						"the routing loop singles out a name ("+k.Value.ExactString()+") that is not one of the confirmed exemptions: such a field or type gets no route although it may stay in the gateway's schema")
+		for _, ins := range allInstrs(fn) {
+			if mu, ok := ins.(*ssa.MapUpdate); ok {
+				if ld, ok := unwrap(mu.Map).(*ssa.UnOp); ok && ld.Op == token.MUL {
+					if fa, ok := ld.X.(*ssa.FieldAddr); ok && strings.HasSuffix(namedOf(fa.X.Type()), "merger.TypeProps") {
+						writes[fn] = append(writes[fn], ins)
+					}
 				}
 			}
 		}
 	}
-	r.AtLeast(rule, "exemption tests in the routing loop", n, 3)
+	for changed := true; changed; {
+		changed = false
+		for fn := range region {
+			if topFn(fn).Pkg != topFn(root).Pkg {
+				continue
+			}
+			for _, e := range r.P.CG.Out[fn] {
+				if e.Kind == "static" && len(writes[e.Callee]) > 0 {
+					dup := false
+					for _, w := range writes[fn] {
+						if w == e.Site.(ssa.Instruction) {
+							dup = true
+						}
+					}
+					if !dup {
+						writes[fn] = append(writes[fn], e.Site.(ssa.Instruction))
+						changed = true
+					}
+				}
+			}
+		}
+	}
+	n := 0
+	seenCond := map[ssa.Value]bool{}
+	var classify func(fn *ssa.Function, v ssa.Value, depth int)
+	report := func(fn *ssa.Function, what string, pos token.Pos, reason string, ok bool) {
+		n++
+		r.Check(ok, rule, fnName(fn), "condition "+what, r.P.pos(pos),
+			"confirmed exemption: "+reason,
+			"whether a field gets its route depends on a condition that is not one of the confirmed exemptions ("+what+"): a field or type for which it decides against the route stays in the gateway's schema without one — a request for it is refused or sent to a service that does not declare it")
+	}
+	classify = func(fn *ssa.Function, v ssa.Value, depth int) {
+		if seenCond[v] || depth > 6 {
+			return
+		}
+		seenCond[v] = true
+		switch c := v.(type) {
+		case *ssa.UnOp:
+			if c.Op == token.NOT {
+				classify(fn, c.X, depth+1)
+				return
+			}
+		case *ssa.Phi:
+			for _, e := range c.Edges {
+				if _, isConst := e.(*ssa.Const); !isConst {
+					classify(fn, e, depth+1)
+				}
+			}
+			return
+		case *ssa.Extract:
+			switch c.Tuple.(type) {
+			case *ssa.Next:
+				return // loop over a map or string
+			case *ssa.Lookup:
+				lk := c.Tuple.(*ssa.Lookup)
+				if strings.HasSuffix(namedOf(lk.X.Type()), "merger.TypeURLMap") {
+					return // is there an entry yet
+				}
+				report(fn, "lookup in "+lk.X.Type().String(), c.Pos(), "", false)
+				return
+			}
+		case *ssa.Lookup:
+			if strings.HasSuffix(namedOf(c.X.Type()), "merger.TypeURLMap") {
+				return
+			}
+			report(fn, "lookup in "+c.X.Type().String(), c.Pos(), "", false)
+			return
+		case *ssa.Call:
+			name := strings.SplitN(calleeName(&c.Call), "[", 2)[0]
+			for k, reason := range routingExemptions {
+				if !strings.HasPrefix(k, `"`) && strings.HasSuffix(name, k) {
+					report(fn, k, c.Pos(), reason, true)
+					return
+				}
+			}
+			// a predicate of the module: what it is made of
+			if sc := c.Call.StaticCallee(); sc != nil && inModule(sc) && sc.Blocks != nil && depth < 3 {
+				for _, ins := range allInstrs(sc) {
+					switch x := ins.(type) {
+					case *ssa.If:
+						classify(sc, x.Cond, depth+1)
+					case *ssa.Return:
+						for _, res := range x.Results {
+							if _, isConst := res.(*ssa.Const); !isConst {
+								classify(sc, res, depth+1)
+							}
+						}
+					}
+				}
+				return
+			}
+			report(fn, calleeDesc(&c.Call), c.Pos(), "", false)
+			return
+		case *ssa.BinOp:
+			if isNilConst(c.X) || isNilConst(c.Y) {
+				return // absent entry / absent definition
+			}
+			for _, side := range []ssa.Value{c.X, c.Y} {
+				k, isConst := side.(*ssa.Const)
+				if !isConst || k.Value == nil {
+					continue
+				}
+				if k.Value.Kind() != constant.String {
+					return // a count or a loop bound
+				}
+				if _, plain := k.Type().(*types.Basic); !plain {
+					return // a typed constant such as ast.Object: the kind of definition
+				}
+				reason, known := routingExemptions[k.Value.ExactString()]
+				report(fn, "on the name "+k.Value.ExactString(), c.Pos(), reason, known)
+				return
+			}
+			if _, isInt := c.X.Type().Underlying().(*types.Basic); isInt && c.X.Type().Underlying().(*types.Basic).Info()&types.IsInteger != 0 {
+				return // index against length
+			}
+		}
+		if ins, ok := v.(ssa.Instruction); ok {
+			report(fn, "of an unrecognised form", ins.Pos(), "", false)
+		}
+	}
+	for fn, ws := range writes {
+		for _, w := range ws {
+			for _, ins := range allInstrs(fn) {
+				iff, ok := ins.(*ssa.If)
+				if !ok {
+					continue
+				}
+				// the branch decides about the write: within the current round of the loop it
+				// stands in, the write can be reached from one of its sides and not from the other
+				loop := innermostLoop(iff.Block())
+				var header *ssa.BasicBlock
+				for b := range loop {
+					for _, p := range b.Preds {
+						if !loop[p] {
+							header = b
+						}
+					}
+				}
+				reach := func(from *ssa.BasicBlock) bool {
+					seen := map[*ssa.BasicBlock]bool{}
+					var walk func(b *ssa.BasicBlock) bool
+					walk = func(b *ssa.BasicBlock) bool {
+						if b == w.Block() {
+							return true
+						}
+						if seen[b] || (header != nil && b == header) {
+							return false
+						}
+						seen[b] = true
+						for _, s2 := range b.Succs {
+							if walk(s2) {
+								return true
+							}
+						}
+						return false
+					}
+					return walk(from)
+				}
+				// … or can be avoided from one side and not from the other (the first test of a
+				// `a && b` chain: its true side may still avoid the write through b)
+				avoid := func(from *ssa.BasicBlock) bool {
+					seen := map[*ssa.BasicBlock]bool{}
+					var walk func(b *ssa.BasicBlock) bool
+					walk = func(b *ssa.BasicBlock) bool {
+						if b == w.Block() || seen[b] {
+							return false
+						}
+						if (header != nil && b == header) || len(b.Succs) == 0 {
+							return true
+						}
+						seen[b] = true
+						for _, s2 := range b.Succs {
+							if walk(s2) {
+								return true
+							}
+						}
+						return false
+					}
+					return walk(from)
+				}
+				s0, s1 := iff.Block().Succs[0], iff.Block().Succs[1]
+				if reach(s0) == reach(s1) && avoid(s0) == avoid(s1) {
+					continue
+				}
+				classify(fn, iff.Cond, 0)
+			}
+		}
+	}
+	r.AtLeast(rule, "conditions that decide whether a field is routed", n, 3)
 }
 
 // nilTestSideEq: iff tests `v == nil` / `v != nil` on exactly v; returns the block entered when v is nil.
